@@ -311,3 +311,263 @@ theorem parseCharName_single (c : Char) : parseCharName [c] = .ok c := by
   simp [this]
 
 end SteelVerif.C12
+
+namespace SteelVerif.C12
+
+theorem lexesTo_char (c : Char) : LexesTo (writeChar c) (.chr c) := by
+  intro rest p hr
+  -- every written form is `#\` n0 ntl with ntl plain and `parseCharName (n0 :: ntl) = ok c`
+  suffices h : ∃ n0 ntl, writeChar c = '#' :: '\\' :: n0 :: ntl ∧ (∀ x ∈ ntl, isHashPlain x = true) ∧
+      parseCharName (n0 :: ntl) = .ok c by
+    obtain ⟨n0, ntl, hw, hpl, hname⟩ := h
+    refine ⟨'#', '\\' :: n0 :: (ntl ++ rest), by rw [hw]; rfl, by decide, ?_⟩
+    exact lexOne_char p n0 ntl rest c hpl hr hname
+  unfold writeChar
+  by_cases h1 : c = ' '
+  · subst h1; exact ⟨'s', t!"pace", rfl, by decide, rfl⟩
+  by_cases h2 : c.toNat = 0
+  · have : c = Char.ofNat 0 := by rw [← h2]; exact (Char.ofNat_toNat c).symm
+    subst this
+    exact ⟨'n', t!"ull", rfl, by decide, rfl⟩
+  by_cases h3 : c = '\t'
+  · subst h3; exact ⟨'t', t!"ab", rfl, by decide, rfl⟩
+  by_cases h4 : c = '\n'
+  · subst h4; exact ⟨'n', t!"ewline", rfl, by decide, rfl⟩
+  by_cases h5 : c = '\r'
+  · subst h5; exact ⟨'r', t!"eturn", rfl, by decide, rfl⟩
+  by_cases h6 : needsEsc c = true
+  · refine ⟨'u', hex4 c.toNat, by simp [h1, h2, h3, h4, h5, h6], ?_, parseCharName_hex c⟩
+    intro x hx
+    obtain ⟨k, hk, rfl⟩ := hex4_mem _ _ hx
+    exact hexDigitLower_plain k hk
+  · refine ⟨c, [], by simp [h1, h2, h3, h4, h5, h6], by simp, parseCharName_single c⟩
+
+end SteelVerif.C12
+
+namespace SteelVerif.C12
+
+/-! ## strings -/
+
+theorem scanHex_digits (endCh delim : Char) (ds tail : Text)
+    (hd : ∀ c ∈ ds, c ≠ endCh ∧ hexStop c = false ∧ c ≠ delim) :
+    scanHex endCh delim (ds ++ endCh :: tail) = .done ds tail := by
+  induction ds with
+  | nil => simp [scanHex]
+  | cons c cs ih =>
+    obtain ⟨h1, h2, h3⟩ := hd c (by simp)
+    have := ih (fun x hx => hd x (by simp [hx]))
+    simp [scanHex, h1, h2, h3, this]
+
+theorem hexLower_ne_nil (n : Nat) : hexLower n ≠ [] := natDigits_ne_nil _ _ _
+
+/-- `\u{hex}` is read back as the character -/
+theorem readEscape_unicode (c : Char) (pos : Nat) (tail : Text) :
+    ∃ pos', readEscape .incompleteString '"' pos ('u' :: '{' :: (hexLower c.toNat ++ '}' :: tail))
+      = { res := .ok (some c), pos := pos', rest := tail } := by
+  have hscan : scanHex '}' '"' (hexLower c.toNat ++ '}' :: tail) = .done (hexLower c.toNat) tail := by
+    apply scanHex_digits
+    intro x hx
+    obtain ⟨k, hk, rfl⟩ := hexLower_mem _ _ hx
+    obtain ⟨_, _, e3, e4, e5, _⟩ := hexDigitLower_ne k hk
+    exact ⟨e3, e4, e5⟩
+  have hne := hexLower_ne_nil c.toNat
+  have hplus : (hexLower c.toNat).head? ≠ some '+' := by
+    cases hh : hexLower c.toNat with
+    | nil => exact absurd hh hne
+    | cons h0 htl =>
+      obtain ⟨k, hk, hk'⟩ := hexLower_mem c.toNat h0 (by rw [hh]; simp)
+      obtain ⟨_, e2, _⟩ := hexDigitLower_ne k hk
+      simp; rw [hk']; exact e2
+  have hp := parseHexU32_of _ _ hne hplus (parse_hexLower c.toNat) (char_lt c)
+  refine ⟨pos + 1 + 1 + utf8Len (hexLower c.toNat) + 1, ?_⟩
+  simp only [readEscape]
+  simp [hexOpen, readHexEscape, hscan, hp, char_valid c, Char.ofNat_toNat]
+
+/-- one written character of a string is read back as that character -/
+theorem readStr_step (c : Char) (f pos : Nat) (buf tail : Text) :
+    ∃ pos', readStr (f + 1) pos buf (escStrChar c ++ tail) = readStr f pos' (c :: buf) tail := by
+  unfold escStrChar
+  by_cases h1 : c = '"'
+  · subst h1; exact ⟨_, by simp [readStr, readEscape]; rfl⟩
+  by_cases h2 : c = '\\'
+  · subst h2; exact ⟨_, by simp [readStr, readEscape]; rfl⟩
+  by_cases h3 : c = '\n'
+  · subst h3; exact ⟨_, by simp [readStr, readEscape]; rfl⟩
+  by_cases h4 : c = '\r'
+  · subst h4; exact ⟨_, by simp [readStr, readEscape]; rfl⟩
+  by_cases h5 : c = '\t'
+  · subst h5; exact ⟨_, by simp [readStr, readEscape]; rfl⟩
+  by_cases h6 : c.toNat = 0
+  · have : c = Char.ofNat 0 := by rw [← h6]; exact (Char.ofNat_toNat c).symm
+    subst this; exact ⟨_, by simp [readStr, readEscape]; rfl⟩
+  by_cases h7 : needsEsc c = true
+  · obtain ⟨pos', hesc⟩ := readEscape_unicode c (pos + '\\'.utf8Size) tail
+    refine ⟨pos', ?_⟩
+    simp only [h1, h2, h3, h4, h5, h6, h7, beq_iff_eq, if_false, if_true, List.cons_append,
+      List.append_assoc, readStr]
+    simp [hesc]
+  · refine ⟨pos + c.utf8Size, ?_⟩
+    simp [h1, h2, h3, h4, h5, h6, h7, readStr]
+
+theorem readStr_body (s : Text) : ∀ (f pos : Nat) (buf more : Text), s.length < f →
+    ∃ pos', readStr f pos buf (writeStrBody s ++ '"' :: more)
+      = { res := .ok (.str (buf.reverse ++ s)), pos := pos', rest := more } := by
+  induction s with
+  | nil =>
+    intro f pos buf more hf
+    cases f with
+    | zero => omega
+    | succ f => exact ⟨_, by simp [writeStrBody, readStr]; rfl⟩
+  | cons c cs ih =>
+    intro f pos buf more hf
+    cases f with
+    | zero => omega
+    | succ f =>
+      obtain ⟨pos1, h1⟩ := readStr_step c f pos buf (writeStrBody cs ++ '"' :: more)
+      obtain ⟨pos2, h2⟩ := ih f pos1 (c :: buf) more (by simp at hf; omega)
+      refine ⟨pos2, ?_⟩
+      simp only [writeStrBody, List.append_assoc]
+      rw [h1, h2]
+      simp
+
+theorem writeStrBody_length (s : Text) : s.length ≤ (writeStrBody s).length := by
+  induction s with
+  | nil => simp [writeStrBody]
+  | cons c cs ih =>
+    have : 1 ≤ (escStrChar c).length := by
+      unfold escStrChar
+      repeat (first | split | simp)
+    simp only [writeStrBody, List.length_append, List.length_cons]
+    omega
+
+theorem lexesTo_str (s : Text) : LexesTo (writeStr s) (.str s) := by
+  intro rest p hr
+  refine ⟨'"', writeStrBody s ++ '"' :: rest, by simp [writeStr], by decide, ?_⟩
+  have h1 : lexOne p '"' (writeStrBody s ++ '"' :: rest)
+      = readStr ((writeStrBody s ++ '"' :: rest).length + 1) (p + 1) [] (writeStrBody s ++ '"' :: rest) := rfl
+  have hlen : s.length < (writeStrBody s ++ '"' :: rest).length + 1 := by
+    have := writeStrBody_length s
+    simp only [List.length_append, List.length_cons]
+    omega
+  obtain ⟨pos', h2⟩ := readStr_body s _ (p + 1) [] rest hlen
+  rw [h1, h2]
+  exact ⟨by simp, rfl, rfl⟩
+
+end SteelVerif.C12
+
+namespace SteelVerif.C12
+
+/-! ## symbols -/
+
+/-- the token the lexer makes of a plain identifier -/
+def symTok (s : Text) : Tok :=
+  match kwOf s with
+  | some t => t
+  | none => .ident s
+
+theorem plain_not_stop {c : Char} (h : isPlainChar c = true) :
+    isWordStop c = false ∧ c ≠ '\\' ∧ c ≠ '|' := by
+  simp only [isPlainChar, Bool.and_eq_true, Bool.not_eq_true', bne_iff_ne, ne_eq] at h
+  exact ⟨h.1.1, h.1.2, h.2⟩
+
+theorem scanWordAux_plain (w rest : Text) (hw : ∀ c ∈ w, isPlainChar c = true)
+    (hr : delimStart rest = true) : scanWordAux false (w ++ rest) = (w, rest) := by
+  induction w with
+  | nil =>
+    cases rest with
+    | nil => rfl
+    | cons c r =>
+      simp only [delimStart, Bool.or_eq_true, beq_iff_eq] at hr
+      rcases hr with h | h <;> subst h <;> rfl
+  | cons c cs ih =>
+    obtain ⟨h1, h2, _⟩ := plain_not_stop (hw c (by simp))
+    have := ih (fun x hx => hw x (by simp [hx]))
+    simp [scanWordAux, h1, h2, this]
+
+theorem symOK_cons {s : Text} (h : symOK s = true) :
+    ∃ c cs, s = c :: cs ∧ symStartOK c = true ∧ (∀ x ∈ cs, isPlainChar x = true) ∧ isAliased s = false := by
+  cases s with
+  | nil => simp [symOK] at h
+  | cons c cs =>
+    simp only [symOK, Bool.and_eq_true, List.all_eq_true, Bool.not_eq_true'] at h
+    exact ⟨c, cs, rfl, h.1.1, h.1.2, h.2⟩
+
+theorem symStart_facts {c : Char} (h : symStartOK c = true) :
+    isPlainChar c = true ∧ c ≠ '#' ∧ c ≠ '+' ∧ c ≠ '-' ∧ c ≠ '.' ∧ isDigit c = false := by
+  simp only [symStartOK, Bool.and_eq_true, bne_iff_ne, ne_eq, Bool.not_eq_true'] at h
+  exact ⟨h.1.1.1.1.1, h.1.1.1.1.2, h.1.1.1.2, h.1.1.2, h.1.2, h.2⟩
+
+theorem lexOne_symStart (p : Nat) (c : Char) (cs : Text) (h : symStartOK c = true) :
+    lexOne p c cs = readWord [] p (c :: cs) := by
+  obtain ⟨hp, h0, h1, h2, h3, h4⟩ := symStart_facts h
+  obtain ⟨hs, _, _⟩ := plain_not_stop hp
+  simp only [isWordStop, Bool.or_eq_false_iff, beq_eq_false_iff_ne, ne_eq] at hs
+  obtain ⟨⟨⟨⟨⟨⟨⟨⟨⟨⟨⟨s1, s2⟩, s3⟩, s4⟩, s5⟩, s6⟩, _⟩, s8⟩, s9⟩, s10⟩, s11⟩, s12⟩ := hs
+  simp [lexOne, s1, s2, s3, s4, s5, s6, s8, s9, s10, s11, s12, h0, h1, h2, h3, h4]
+
+theorem symStart_not_ws {c : Char} (h : symStartOK c = true) : isWs c = false := by
+  obtain ⟨hp, _⟩ := symStart_facts h
+  obtain ⟨hs, _, _⟩ := plain_not_stop hp
+  simp only [isWordStop, Bool.or_eq_false_iff] at hs
+  exact hs.1.1.1.1.1.2
+
+theorem lexesTo_sym (s : Text) (h : symOK s = true) : LexesTo s (symTok s) := by
+  intro rest p hr
+  obtain ⟨c, cs, rfl, hc, hcs, _⟩ := symOK_cons h
+  refine ⟨c, cs ++ rest, rfl, symStart_not_ws hc, ?_⟩
+  rw [lexOne_symStart p c _ hc]
+  obtain ⟨hcp, _, hplus, _⟩ := symStart_facts hc
+  obtain ⟨_, _, hbar⟩ := plain_not_stop hcp
+  have hscan : scanWord ((c :: cs) ++ rest) = (c :: cs, rest) :=
+    scanWordAux_plain (c :: cs) rest (by intro x hx; rcases List.mem_cons.mp hx with h | h; (subst h; exact hcp); exact hcs x h) hr
+  have hw : readWord [] p (c :: (cs ++ rest)) =
+      (match wordToken (c :: cs) false [] with
+       | .ok (t, q) => { res := .ok t, pos := p + utf8Len (c :: cs), rest := rest, queued := q }
+       | .error k => { res := .error k, pos := p + utf8Len (c :: cs), rest := rest }) := by
+    unfold readWord
+    split
+    · rename_i cs1 heq; injection heq with a _; exact absurd a hbar
+    · rw [show c :: (cs ++ rest) = (c :: cs) ++ rest from rfl, hscan]
+      rfl
+  rw [hw]
+  unfold wordToken symTok
+  cases kwOf (c :: cs) with
+  | some t => exact ⟨rfl, rfl, rfl⟩
+  | none =>
+    simp [hplus]
+
+/-- every keyword spelling converts back to the symbol of that spelling, except the aliases -/
+def kwEntryOK (e : Text × Tok) : Bool :=
+  (match atomToDatum e.2 with
+   | .sym n => n == e.1
+   | _ => false) || isAliased e.1 || e.1.head? == some '#' || e.1.head? == some '.'
+
+theorem kwTable_ok : ∀ e ∈ kwTable, kwEntryOK e = true := by decide
+
+theorem atomToDatum_symTok (s : Text) (h : symOK s = true) : atomToDatum (symTok s) = .sym s := by
+  obtain ⟨c, cs, rfl, hc, _, hal⟩ := symOK_cons h
+  obtain ⟨_, hhash, _, _, hdot, _⟩ := symStart_facts hc
+  unfold symTok
+  cases hk : kwOf (c :: cs) with
+  | none => rfl
+  | some t =>
+    unfold kwOf at hk
+    cases hf : kwTable.find? (fun e => e.1 == c :: cs) with
+    | none => rw [hf] at hk; cases hk
+    | some e =>
+      rw [hf] at hk
+      simp only [Option.map_some, Option.some.injEq] at hk
+      have hmem := List.mem_of_find?_eq_some hf
+      have hname : e.1 = c :: cs := by
+        have := List.find?_some hf
+        exact eq_of_beq this
+      have hok := kwTable_ok e hmem
+      unfold kwEntryOK at hok
+      rw [hname] at hok
+      simp only [hal, List.head?_cons, Option.some.injEq, Bool.or_false, Bool.or_eq_true,
+        beq_iff_eq, hhash, hdot] at hok
+      rw [← hk]
+      revert hok
+      cases atomToDatum e.2 <;> simp
+
+end SteelVerif.C12
